@@ -7,3 +7,7 @@ META = meta('C17', level='proof', extra_tb=['base64 is injective on fixed-length
 
 def check(A):
     R.generate_id_rules(A, 'C17')
+    # the id a client is told is the id its session is stored under (OPEN built per connection)
+    from .sockrules import FLAVOURS
+    for fl in FLAVOURS:
+        R.handle_connect_rules(A, fl, 'C17')
